@@ -277,6 +277,9 @@ def run(ctx, name, kind, **kw):
             for r in vals:
                 for s in (vals if len(vals) < 40 else rng.sample(vals, 12) + [0, n - 1]):
                     check_triplet(ctx, n, r, s)
+                # related pairs: r = s, s = n - r, s = n - 1 - r, one the byte-reverse of the other
+                for s in (r, (n - r) % n, n - 1 - r, int.from_bytes(r.to_bytes(blen(n), "big")[::-1], "big") % n):
+                    check_triplet(ctx, n, r, s)
     elif kind == "concurrent":
         from vf import sched as S
         jobs = []
